@@ -44,6 +44,10 @@ def generate(tier, seed, work, stats):
             d = singles[j]
             cases.append(dict(prodsA=c["prods"], prodsB=d["prods"], vpoolA=c["vpool"], vpoolB=d["vpool"] if j != i else c["vpool"],
                               tpool="ab", same=(j == i), family="CFGGen-pairs", L=4))
+            if j != i and (i + j) % 5 == 0:
+                # the second operand's terminals are spelled like the first operand's variables
+                cases.append(dict(prodsA=c["prods"], prodsB=d["prods"], vpoolA="upper", vpoolB="subs_lo", tpool="ab", tpoolB="upperT",
+                                  same=False, family="CFGGen-pairs-terminal-like-variable", L=4))
     for k in range(1000 if tier == "quick" else 20000):
         a, b = c08.random_grammars(2, seed * 100003 + k, maxp=4, maxb=3)
         cases.append(dict(prodsA=a, prodsB=b, vpoolA="upper", vpoolB=rnd.choice(["upper", "alg"]), tpool="ab", same=False,
@@ -74,7 +78,7 @@ def replay(case):
     if case["same"]:
         b, sb, tb = a, sa, ta
     else:
-        b, sb, tb = cfgh.make(case["prodsB"], case["vpoolB"], case["tpool"])
+        b, sb, tb = cfgh.make(case["prodsB"], case["vpoolB"], case.get("tpoolB", case["tpool"]))
     A, B = cfgh.project(a), cfgh.project(b)
     Lw = case["L"]
     evs = [{"op": "new", "G": A, "start": sa, "prods": ta}, {"op": "new", "G": B, "start": sb, "prods": tb}]
@@ -88,6 +92,21 @@ def replay(case):
     from pyformlang.cfg import Terminal
     evs.append(cfgh.result_event("substitute", A, guard.call(lambda: a.substitute({Terminal(t): b}), timeout=4.0),
                                  H=B, L=Lw, t=cfgh.tt(t), same=case["same"]))
+    # conversions of conversions: the operations applied to the normal form / epsilon-free form of a closure or union
+    for first in (a.get_closure, a.get_positive_closure, lambda: a.union(b)):
+        r1 = guard.call(first, timeout=4.0)
+        if r1[0] != "ok":
+            continue
+        for mid in ("to_normal_form", "remove_epsilon"):
+            r2 = guard.call(getattr(r1[1], mid), timeout=4.0)
+            if r2[0] != "ok":
+                continue
+            Y = cfgh.project(r2[1])
+            if len(Y["prods"]) > 40:
+                continue
+            for op in ("get_closure", "get_positive_closure", "reverse"):
+                r3 = guard.call(getattr(r2[1], op), timeout=4.0)
+                evs.append(with_answers(cfgh.result_event(op, Y, r3, L=Lw, chain=mid), r3, case["tpool"]))
     # the same operations on operands that were queried before (cached analyses must not leak into the results)
     for g in (a, b):
         for w in ([], ["a"], ["a", "b"]):
